@@ -4,6 +4,7 @@ package main
 
 import (
 	"fmt"
+	"go/types"
 	"os"
 	"regexp"
 	"sort"
@@ -329,8 +330,104 @@ func errBranchOf(w *World, marker string, call ssa.Value) (isErrEdge bool, isOkE
 				return true, false
 			}
 		}
+		// a boolean helper of the result (`isFailure(xerr)`): what its answer says about nil
+		for f, im := range w.boolNilHelpers() {
+			if body == f+"("+cc+")" || body == "("+f+"("+cc+") == true)" {
+				v := im.onFalse
+				if strings.HasPrefix(marker, "?T:") {
+					v = im.onTrue
+				}
+				switch v {
+				case 1:
+					return true, false
+				case -1:
+					return false, true
+				}
+			}
+		}
+		// the result handed through a filter that returns its argument or nil
+		// (`dropSentinel(err)`): a non-nil filtered value means the call failed; a nil
+		// one says nothing (the error may have been the one dropped)
+		for _, f := range w.nilFilterNames() {
+			if (body == "("+f+"("+cc+") != nil)" && strings.HasPrefix(marker, "?T:")) || (body == "("+f+"("+cc+") == nil)" && strings.HasPrefix(marker, "?F:")) {
+				return true, false
+			}
+		}
 	}
 	return false, false
+}
+
+// boolNilHelpers: the one-parameter boolean helpers of the module whose answer tells
+// whether the argument is nil (by canonical call prefix).
+func (w *World) boolNilHelpers() map[string]nilImplication {
+	if w.boolNilTab != nil {
+		return w.boolNilTab
+	}
+	w.boolNilTab = map[string]nilImplication{}
+	for _, fn := range w.ModuleFuncs() {
+		if fn.Blocks == nil || len(fn.Params) != 1 || fn.Signature.Recv() != nil || fn.Parent() != nil {
+			continue
+		}
+		for _, im := range w.helperNilImplications(fn) {
+			if im.param == 0 {
+				w.boolNilTab[w.FName(fn)] = im
+			}
+		}
+	}
+	return w.boolNilTab
+}
+
+// nilFilterNames: the module functions of one nillable parameter whose every return
+// hands back that parameter or nil (as canonical call prefixes).
+func (w *World) nilFilterNames() []string {
+	if w.nilFilters != nil {
+		return *w.nilFilters
+	}
+	out := []string{}
+	for _, fn := range w.ModuleFuncs() {
+		if fn.Blocks == nil || len(fn.Params) != 1 || fn.Signature.Results().Len() != 1 || fn.Signature.Recv() != nil || len(fn.Blocks) > 12 {
+			continue
+		}
+		if _, isI := fn.Params[0].Type().Underlying().(*types.Interface); !isI || !types.Identical(fn.Params[0].Type(), fn.Signature.Results().At(0).Type()) {
+			continue
+		}
+		ok := w.pureFn(fn, 0)
+		var visit func(v ssa.Value, d int) bool
+		visit = func(v ssa.Value, d int) bool {
+			switch x := v.(type) {
+			case *ssa.Parameter:
+				return true
+			case *ssa.Const:
+				return x.IsNil()
+			case *ssa.Phi:
+				if d > 3 {
+					return false
+				}
+				for _, e := range x.Edges {
+					if !visit(e, d+1) {
+						return false
+					}
+				}
+				return true
+			}
+			return false
+		}
+		n := 0
+		for _, b := range fn.Blocks {
+			if ret, isR := lastInstr(b).(*ssa.Return); isR && b != fn.Recover {
+				n++
+				if len(ret.Results) != 1 || !visit(ret.Results[0], 0) {
+					ok = false
+				}
+			}
+		}
+		if ok && n > 0 {
+			out = append(out, w.FName(fn))
+		}
+	}
+	sort.Strings(out)
+	w.nilFilters = &out
+	return out
 }
 
 // phiVariants: s itself and s with each `phi(a|b|…)` replaced by one of its
@@ -742,7 +839,7 @@ func a2(w *World, r *Report) {
 }
 
 var a3Functions = []fref{
-	{"node", "", "runTrx"}, {"node", "", "postRunTrx"},
+	{"node", "TrxExecutor", "ExecuteSync"}, {"node", "", "runTrx"}, {"node", "", "postRunTrx"},
 	{"ctrlers/account", "AcctCtrler", "ExecuteTrx"}, {"ctrlers/account", "AcctCtrler", "transfer"},
 	{"ctrlers/stake", "StakeCtrler", "ExecuteTrx"}, {"ctrlers/stake", "StakeCtrler", "exeStaking"}, {"ctrlers/stake", "StakeCtrler", "exeUnstaking"}, {"ctrlers/stake", "StakeCtrler", "exeWithdraw"},
 	{"ctrlers/gov", "GovCtrler", "ExecuteTrx"}, {"ctrlers/gov", "GovCtrler", "execProposing"}, {"ctrlers/gov", "GovCtrler", "execVoting"},
@@ -936,6 +1033,13 @@ func a4(w *World, r *Report) {
 				return "Revert(other)"
 			}
 		}
+		// go-ethereum's end-of-transaction step on the wrapped state: self-destructed
+		// objects disappear, so balances read afterwards are no longer the transaction's
+		if (nm == "Finalise" || nm == "IntermediateRoot") && rn != nil && rn.Obj().Name() == "StateDB" {
+			if rcv, _ := callRecvArgs(c.Common()); rcv != nil && strings.Contains(w.Canon(rcv), "stateDBWrapper") {
+				return "Finalise"
+			}
+		}
 		if nm == "execVM" {
 			return "execVM"
 		}
@@ -958,9 +1062,34 @@ func a4(w *World, r *Report) {
 	}
 	bad := ""
 	nFail, nOK := 0, 0
+	badOrder, nFin := "", 0
+	for pi := range paths {
+		// the write-back reads the balances the transaction left: it runs before
+		// go-ethereum finalises the state (which zeroes self-destructed accounts)
+		var kept []string
+		seenFinalise := false
+		for _, e := range paths[pi].Events {
+			if e == "Finalise" {
+				seenFinalise = true
+				nFin++
+				continue
+			}
+			if e == "Finish" && seenFinalise && paths[pi].Term == "ok" {
+				badOrder = "a success path writes the balances back after the state was finalised"
+			}
+			kept = append(kept, e)
+		}
+		paths[pi].Events = kept
+	}
+	r.Check(badOrder == "" && nFin > 0, "A-4", "ExecuteTrx:write-back-before-finalise", "on every success path Finish copies the transaction's balances and nonces to the native ledger before go-ethereum finalises the state", "the native ledger is synchronised with the finalised EVM state (an address credited after its contract self-destructed reads as zero: value is destroyed): "+badOrder, fnSite(w, fn))
 	for _, p := range paths {
 		if os.Getenv("RIGOCHECK_DEBUG") == "a4" {
-			fmt.Fprintln(os.Stderr, "A4 path", p.Term, p.Events, func() string { if p.Ret != nil { return w.InstrPos(p.Ret) }; return "-" }())
+			fmt.Fprintln(os.Stderr, "A4 path", p.Term, p.Events, func() string {
+				if p.Ret != nil {
+					return w.InstrPos(p.Ret)
+				}
+				return "-"
+			}())
 		}
 		if p.Term == "loop" {
 			continue
@@ -987,6 +1116,35 @@ func a4(w *World, r *Report) {
 		}
 	}
 	r.Check(bad == "" && nFail >= 1 && nOK >= 1, "A-4", "ExecuteTrx:snapshot-revert-finish", fmt.Sprintf("%d failure exits revert to the pre-transaction snapshot and then sync out; %d success exits sync out once without revert", nFail, nOK), "EVM failure handling does not revert to the snapshot taken before the transaction: "+bad, fnSite(w, fn))
+	// an executed transaction routed here succeeds only through the EVM: the node's
+	// post-run step leaves nonce and fee of these transactions to the message
+	// application (ApplyMessage) and the write-back (Finish)
+	{
+		badS, nS := "", 0
+		for _, a := range []txAbs{{6, false, true}, {6, true, true}, {1, true, true}} {
+			ps, cpl := w.enumPaths(fn, w.evalTxCond(a), event, 20000)
+			if !cpl {
+				badS = "path enumeration incomplete"
+			}
+			for _, p := range ps {
+				// a return whose error value the path does not determine may succeed
+				if p.Term != "ok" && p.Term != "unknown" {
+					continue
+				}
+				nS++
+				var kept []string
+				for _, e := range p.Events {
+					if e != "Finalise" {
+						kept = append(kept, e)
+					}
+				}
+				if ev := strings.Join(kept, ","); ev != "Snapshot,Prepare,execVM,Finish" {
+					badS = fmt.Sprintf("for (type=%d, receiverHasCode=%v, exec=true) a success exit runs [%s]", a.typ, a.hasCode, ev)
+				}
+			}
+		}
+		r.Check(badS == "" && nS >= 3, "A-4", "ExecuteTrx:executed-success-applies-message", "every success exit of an executed EVM-routed transaction passes Snapshot, Prepare, the message application and Finish (nonce and fee are consumed there and nowhere else)", "an executed EVM-routed transaction can succeed without the message being applied and written back (no nonce consumed, no fee charged: the signed bytes stay valid): "+badS, fnSite(w, fn))
+	}
 	// the post-Finish error exit (marking the created contract account) is dead
 	okDead := true
 	for _, c := range CallsIn(fn) {
